@@ -177,7 +177,7 @@ PROPS = {
         theorems=["BB.Props.C17.inv_step", "BB.Props.C17.single_instance", "BB.Props.C17.held_implies_running_open",
                   "BB.Props.C17.stop_after_all_done", "BB.Props.C17.do_blocked_while_stopping", "BB.Props.C17.fresh_instance_after_stop",
                   "BB.Props.C17.unheld_not_stuck"],
-        corr=[dict(family="worker", quick=120, thorough=5000, mismatch_is_violation=True, no_shrink=True,
+        corr=[dict(family="worker", quick=300, thorough=5000, mismatch_is_violation=True, no_shrink=True,
                    nontrivial=has("fresh_instance_after_stop", "do_while_watcher_waiting", "stop_seen_before_hook"),
                    rule="worker: 1-5 free-running holders x 2-7 Do/done rounds with PRNG perturbation on one real Worker; verif hook points in Do's critical "
                         "section, at the watcher's wait-group take / Wait return / stop close / exit and at the function's return, plus the function's own start / "
@@ -484,6 +484,46 @@ PROPS["C08"] = dict(
                      "termination of Send/Add as leadsTo under fairness (proved: send_never_stuck / absorbing_never_stuck = an enabled rendezvous always exists)"],
 )
 
+_PS_RULE = ("pubsub: 1-3 senders (1-4 Sends each) and 1-5 subscriber goroutines (1-3 subscriptions each: manual Add(1) / receive-then-Wait / Add(-1) after a PRNG delay, "
+            "SubscribeContext iterators cancelled at a PRNG instant or left early, iterators that are never run) on one real ChanPubSub; every atomic operation on the subscriber "
+            "counter and on the embedded caster's state word is bracketed by begin/end hooks whose handler serialises them and logs the value they left; lock-section hooks for "
+            "sendMu / sendingMu / pongC.L sections; TryRLock outcomes; the halves of each channel rendezvous are paired under their program-order constraints; the log must be "
+            "accepted step by step by the Lean protocol model (exact counter and caster word at every atomic event, who receives / absorbs, the value received is the current "
+            "Send's, pongs published = values received, every Wait consumes a published pong, every Send's return value, nothing outstanding and not broken at the end); a call "
+            "that does not return is reported as !stuck")
+_PS_C06_OBS = ("received a value that is not", "Send returned", "the iterator yielded", "acknowledged value differs", "pongs to wait for", "Wait consumed a pong",
+               "Send stopped waiting", "Send returned before its pongs", "a value was received by a subscriber that is not between rounds", "fast path")
+_PS_C07_OBS = ("the model panics here", "did not return", "broken", "final validation panicked", "left through its deferred unlock", "subscribers left at the end",
+               "final subscriber count", "caster word not 0")
+def ps_monitor(prop, m, trace):
+    text = m.get("expected", "") + " " + m.get("observed", "")
+    if prop == "C06" and any(k in text for k in _PS_C06_OBS):
+        return "a delivery / acknowledgement / return value differs from what the proved model allows"
+    if prop == "C07" and any(k in text for k in _PS_C07_OBS):
+        return "a call did not return, a state-invariant panic occurred, or the final counters are off"
+    return None
+
+PROPS["C06"] = dict(
+    lean_targets=["BB.Props.C06"],
+    theorems=[],
+    corr=[dict(family="pubsub", quick=150, thorough=6000, monitor=ps_monitor, no_shrink=True,
+               nontrivial=has("absorb", "unsub_during_send_phase", "deliver_iter", "unsub_between_ping_add_and_cas", "cas_failed_by_racing_unsubscribe", "send_returned_zero_after_lock"),
+               rule=_PS_RULE + "; non-trivial = an unsubscribe absorbing its copy during the send phase, iterator deliveries, a Send that finds everybody gone after locking")],
+    assumptions=["sync.Mutex / RWMutex / Cond / atomics semantics modelled; TryRLock may fail whenever a Send holds or awaits sendingMu (spurious failures only add spinning)",
+                 "the embedded caster's own RWMutex is not modelled (only the holder of sendMu ever takes it)",
+                 "subscribers follow the documented contract (receive then Wait; unsubscribe only between rounds; no receive while unsubscribing)"],
+    open_statements=[],
+)
+PROPS["C07"] = dict(
+    lean_targets=["BB.Props.C07"],
+    theorems=[],
+    corr=[dict(family="pubsub", quick=150, thorough=6000, monitor=ps_monitor, no_shrink=True,
+               nontrivial=has("absorb", "unsub_during_send_phase", "unsub_try_failed", "unsub_spin", "unsub_between_ping_add_and_cas", "cas_failed_by_racing_unsubscribe"),
+               rule=_PS_RULE + "; non-trivial = unsubscribes that fail TryRLock (spin, see the Send in progress, route the decrement through the caster)")],
+    assumptions=PROPS["C06"]["assumptions"] if "C06" in PROPS else [],
+    open_statements=[],
+)
+
 with_conform(PROPS["C01"], "Buffer")
 with_conform(PROPS["C02"], "Buffer")
 with_conform(PROPS["C03"], "Buffer")
@@ -509,3 +549,5 @@ PROPS["C12"]["theorems"] += ["BB.LockOrder.no_wait_cycle", "BB.LockOrder.no_dead
 with_conform(PROPS["C09"], "Exclusive")
 with_conform(PROPS["C10"], "Exclusive")
 with_conform(PROPS["C08"], "Caster")
+with_conform(PROPS["C06"], "PubSub", "Caster")
+with_conform(PROPS["C07"], "PubSub", "Caster", "LockOrder")
